@@ -783,6 +783,47 @@ func c13(r *Report) {
 	r.Guard("C13.R5", "requests addressed to the proxy's own API are never counted by a verifier", func() {
 		// response-side verifiers find the API mark through res.Request: it is this exchange's request
 		responseBoundToRequestRule(r)
+		// the mark itself: the API forwarder marks every request it is given, on every path (a
+		// shortcut for requests that already name the API server leaves them unmarked)
+		if fw := r.W.Fn("api", "Forwarder.ModifyRequest"); fw != nil && fw.Blocks != nil {
+			r.Touch(fw)
+			g := G(fw)
+			isMark := func(i ssa.Instruction) bool { _, y := isCall(i, "(*M.Context).APIRequest"); return y }
+			p := g.PathTo([]ssa.Instruction{g.Entry()}, true, isMark, isReturn)
+			r.Decide("path", "(*M/api.Forwarder).ModifyRequest marks the request as an API request on every path", p == nil, "ctx.APIRequest() lies on every path to the return", "the forwarder can return without marking the request: API requests that take that path are counted by every verifier", fw.Pos())
+		}
+		// both handlers of the command-line proxy get both sides of the configurable modifier
+		if mn := r.W.Fn("cmd/proxy", "main"); mn != nil && mn.Blocks != nil {
+			r.Touch(mn)
+			for _, ctor := range []string{"M/verify.NewHandler", "M/verify.NewResetHandler"} {
+				for _, c := range plainCalls(mn, ctor) {
+					req, res := false, false
+					for _, sc := range calls(mn) {
+						callee := sc.Common().StaticCallee()
+						if callee == nil || len(sc.Common().Args) == 0 {
+							continue
+						}
+						recv := sc.Common().Args[0]
+						same := recv == ssa.Value(c)
+						for _, l := range resolveAll(recv) {
+							if l == ssa.Value(c) {
+								same = true
+							}
+						}
+						if !same {
+							continue
+						}
+						switch callee.Name() {
+						case "SetRequestVerifier":
+							req = true
+						case "SetResponseVerifier":
+							res = true
+						}
+					}
+					r.Decide("flow", "cmd/proxy main: the handler made by "+ctor+" is given the request and the response verifier", req && res, "SetRequestVerifier and SetResponseVerifier are both called on it", "a verification handler is wired to one side only: a reset (or a query) over HTTP leaves the other side's verifiers untouched although it answers 204 / 200", c.Pos())
+				}
+			}
+		}
 		contextFlagRules(r, "APIRequest", "IsAPIRequest")
 		for _, l := range leaves {
 			fn := w.method(l.T, l.S.modify)
